@@ -215,9 +215,32 @@ def gen_randomfile(t, m):
     w = only(withs, fn, 'with block in put')
     ifs = [n for n in w.body if isinstance(n, ast.If)]
     iff = only(ifs, fn, 'if inside the with block of put')
-    if not (len(w.body) == 2 and w.body[0] is iff and
-            ast.unparse(w.body[1]) == 'self._fhandle.write(bytes(self._field_file.get_buffer()))'):
+    tail = [ast.unparse(x) for x in w.body[1:]]
+    if not (w.body[0] is iff and tail[:1] == ['self._fhandle.write(bytes(self._field_file.get_buffer()))']
+            and tail[1:] in ([], ['self._fhandle.flush()'])):
         refuse(w, 'with block of put changed shape')
+    t.emit('(* RandomFile.put flushes the host stream after the write (the record is visible through other file '
+           'numbers) *)')
+    t.emit('Definition rf_put_flushes : bool := %s.' % ('true' if len(tail) == 2 else 'false'))
+    # --- get: the read in the not-eof branch, with or without an absolute seek before it
+    gfn = m.find('RandomFile.get')
+    gifs = [n for n in gfn.body if isinstance(n, ast.If) and ast.unparse(n.test) == 'self.eof()']
+    gif = only(gifs, gfn, 'if self.eof() in get')
+    if not (len(gif.orelse) == 1 and isinstance(gif.orelse[0], ast.With)):
+        refuse(gif, 'not-eof branch of get changed shape')
+    gb = [ast.unparse(x) for x in gif.orelse[0].body]
+    if gb[-1] != 'contents = self._fhandle.read(self.reclen)' or len(gb) > 2:
+        refuse(gif, 'not-eof branch of get does not end with the read of one record')
+    if len(gb) == 2:
+        sk = gif.orelse[0].body[0]
+        if not (isinstance(sk, ast.Expr) and isinstance(sk.value, ast.Call) and
+                ast.unparse(sk.value.func) == 'self._fhandle.seek' and len(sk.value.args) == 1):
+            refuse(sk, 'statement before the read in get is not an absolute seek')
+        t.emit('(* RandomFile.get: seek before the read *)')
+        t.emit('Definition rf_get_seek (recpos reclen fpos : Z) : Z := %s.' % t.as_Z(t.expr(sk.value.args[0], base)))
+    else:
+        t.emit('(* RandomFile.get reads at the current stream position *)')
+        t.emit('Definition rf_get_seek (recpos reclen fpos : Z) : Z := fpos.')
     t.emit('(* diskfiles.py:%d RandomFile.put: `if %s:` pad from the end of the file *)' % (
         iff.lineno, ast.unparse(iff.test)))
     t.emit('Definition rf_put_gap (recpos reclen lof : Z) : bool := %s.' % with_lets(
